@@ -309,6 +309,240 @@ func TestPrimitiveBuffersAllTypes(t *testing.T) {
 			}
 		}
 		p.verify("second calls")
+		// ---- results belong to the caller: a result kept across a later call on the same primitive
+		// (same-length other input, so that an internal scratch buffer handed out as the result would be
+		// refilled) keeps its bytes and shares no memory with the later result; and after the caller has
+		// overwritten every result it got (full capacity), the primitive still gives what a primitive
+		// built afresh gives / accepts (no result is a view of the primitive's own state).
+		x3 := bytes.Clone(x)
+		for i := range x3 {
+			x3[i] ^= 0x5A
+		}
+		if len(x3) == 0 {
+			x3 = []byte{0x5A}
+		}
+		kept := func(op string, r1, saved []byte) {
+			if !bytes.Equal(r1, saved) {
+				rt.Fatalf("%s: %s: a result the caller kept changed when the same primitive was called again with another input:\n was %x\n now %x", info.Desc, op, saved, r1)
+			}
+		}
+		corrupted := func(op string, err error) {
+			rt.Fatalf("%s: %s: after the caller overwrote the results it had received, the primitive no longer gives the right result (a result was a view of the primitive's state): %v", info.Desc, op, err)
+		}
+		switch c {
+		case keys.AEAD:
+			a, fresh := tk.Must(aead.New(h)), tk.Must(aead.New(h2))
+			r1, err1 := a.Encrypt(x, y)
+			s1 := bytes.Clone(r1)
+			r2, err2 := a.Encrypt(x3, y)
+			if err1 != nil || err2 != nil {
+				rt.Fatalf("%s: Encrypt: %v %v", info.Desc, err1, err2)
+			}
+			p.out("Encrypt", "ciphertext (kept)", r1)
+			p.out("Encrypt", "ciphertext (later)", r2)
+			kept("Encrypt", r1, s1)
+			d1, err1 := a.Decrypt(s1, y)
+			sd := bytes.Clone(d1)
+			d2, err2 := a.Decrypt(bytes.Clone(r2), y)
+			if err1 != nil || err2 != nil || !bytes.Equal(d2, x3) {
+				rt.Fatalf("%s: Decrypt: %v %v", info.Desc, err1, err2)
+			}
+			p.out("Decrypt", "plaintext (kept)", d1)
+			p.out("Decrypt", "plaintext (later)", d2)
+			kept("Decrypt", d1, sd)
+			flipAll(r1)
+			flipAll(r2)
+			flipAll(d1)
+			flipAll(d2)
+			r3, err := a.Encrypt(x, y)
+			if err != nil {
+				rt.Fatalf("%s: Encrypt: %v", info.Desc, err)
+			}
+			if got, err := fresh.Decrypt(r3, y); err != nil || !bytes.Equal(got, x) {
+				corrupted("Encrypt", err)
+			}
+			if got, err := a.Decrypt(s1, y); err != nil || !bytes.Equal(got, x) {
+				corrupted("Decrypt", err)
+			}
+		case keys.DAEAD:
+			d, fresh := tk.Must(daead.New(h)), tk.Must(daead.New(h2))
+			r1, err1 := d.EncryptDeterministically(x, y)
+			s1 := bytes.Clone(r1)
+			r2, err2 := d.EncryptDeterministically(x3, y)
+			if err1 != nil || err2 != nil {
+				rt.Fatalf("%s: EncryptDeterministically: %v %v", info.Desc, err1, err2)
+			}
+			p.out("EncryptDeterministically", "ciphertext (kept)", r1)
+			p.out("EncryptDeterministically", "ciphertext (later)", r2)
+			kept("EncryptDeterministically", r1, s1)
+			d1, err1 := d.DecryptDeterministically(s1, y)
+			sd := bytes.Clone(d1)
+			d2, err2 := d.DecryptDeterministically(bytes.Clone(r2), y)
+			if err1 != nil || err2 != nil || !bytes.Equal(d2, x3) {
+				rt.Fatalf("%s: DecryptDeterministically: %v %v", info.Desc, err1, err2)
+			}
+			p.out("DecryptDeterministically", "plaintext (kept)", d1)
+			p.out("DecryptDeterministically", "plaintext (later)", d2)
+			kept("DecryptDeterministically", d1, sd)
+			flipAll(r1)
+			flipAll(r2)
+			flipAll(d1)
+			flipAll(d2)
+			r3, err := d.EncryptDeterministically(x, y)
+			want, errw := fresh.EncryptDeterministically(x, y)
+			if err != nil || errw != nil || !bytes.Equal(r3, want) || !bytes.Equal(r3, s1) {
+				corrupted("EncryptDeterministically", err)
+			}
+		case keys.MAC:
+			m, fresh := tk.Must(mac.New(h)), tk.Must(mac.New(h2))
+			r1, err1 := m.ComputeMAC(x)
+			s1 := bytes.Clone(r1)
+			r2, err2 := m.ComputeMAC(x3)
+			if err1 != nil || err2 != nil {
+				rt.Fatalf("%s: ComputeMAC: %v %v", info.Desc, err1, err2)
+			}
+			p.out("ComputeMAC", "tag (kept)", r1)
+			p.out("ComputeMAC", "tag (later)", r2)
+			kept("ComputeMAC", r1, s1)
+			flipAll(r1)
+			flipAll(r2)
+			r3, err := m.ComputeMAC(x)
+			if err != nil || !bytes.Equal(r3, s1) || fresh.VerifyMAC(r3, x) != nil {
+				corrupted("ComputeMAC", err)
+			}
+			if err := m.VerifyMAC(s1, x); err != nil {
+				corrupted("VerifyMAC", err)
+			}
+		case keys.PRF:
+			ps := tk.Must(prf.NewPRFSet(h))
+			r1, err1 := ps.ComputePrimaryPRF(x, 16)
+			s1 := bytes.Clone(r1)
+			r2, err2 := ps.ComputePrimaryPRF(x3, 16)
+			if err1 != nil || err2 != nil {
+				rt.Fatalf("%s: ComputePrimaryPRF: %v %v", info.Desc, err1, err2)
+			}
+			p.out("ComputePrimaryPRF", "output (kept)", r1)
+			p.out("ComputePrimaryPRF", "output (later)", r2)
+			kept("ComputePrimaryPRF", r1, s1)
+			flipAll(r1)
+			flipAll(r2)
+			if r3, err := ps.ComputePrimaryPRF(x, 16); err != nil || !bytes.Equal(r3, s1) {
+				corrupted("ComputePrimaryPRF", err)
+			}
+		case keys.Signature:
+			sg := tk.Must(signature.NewSigner(h))
+			v, fresh := tk.Must(signature.NewVerifier(tk.Must(h.Public()))), tk.Must(signature.NewVerifier(tk.Must(h2.Public())))
+			r1, err1 := sg.Sign(x)
+			s1 := bytes.Clone(r1)
+			r2, err2 := sg.Sign(x3)
+			if err1 != nil || err2 != nil {
+				rt.Fatalf("%s: Sign: %v %v", info.Desc, err1, err2)
+			}
+			p.out("Sign", "signature (kept)", r1)
+			p.out("Sign", "signature (later)", r2)
+			kept("Sign", r1, s1)
+			if err := v.Verify(r2, x3); err != nil {
+				rt.Fatalf("%s: Verify: %v", info.Desc, err)
+			}
+			flipAll(r1)
+			flipAll(r2)
+			r3, err := sg.Sign(x)
+			if err != nil || fresh.Verify(r3, x) != nil {
+				corrupted("Sign", err)
+			}
+			if err := v.Verify(s1, x); err != nil {
+				corrupted("Verify", err)
+			}
+		case keys.Hybrid:
+			e := tk.Must(hybrid.NewHybridEncrypt(tk.Must(h.Public())))
+			d, fresh := tk.Must(hybrid.NewHybridDecrypt(h)), tk.Must(hybrid.NewHybridDecrypt(h2))
+			r1, err1 := e.Encrypt(x, y)
+			s1 := bytes.Clone(r1)
+			r2, err2 := e.Encrypt(x3, y)
+			if err1 != nil || err2 != nil {
+				rt.Fatalf("%s: Encrypt: %v %v", info.Desc, err1, err2)
+			}
+			p.out("Encrypt", "ciphertext (kept)", r1)
+			p.out("Encrypt", "ciphertext (later)", r2)
+			kept("Encrypt", r1, s1)
+			d1, err1 := d.Decrypt(s1, y)
+			sd := bytes.Clone(d1)
+			d2, err2 := d.Decrypt(bytes.Clone(r2), y)
+			if err1 != nil || err2 != nil || !bytes.Equal(d2, x3) {
+				rt.Fatalf("%s: Decrypt: %v %v", info.Desc, err1, err2)
+			}
+			p.out("Decrypt", "plaintext (kept)", d1)
+			p.out("Decrypt", "plaintext (later)", d2)
+			kept("Decrypt", d1, sd)
+			flipAll(r1)
+			flipAll(r2)
+			flipAll(d1)
+			flipAll(d2)
+			r3, err := e.Encrypt(x, y)
+			if err != nil {
+				rt.Fatalf("%s: Encrypt: %v", info.Desc, err)
+			}
+			if got, err := fresh.Decrypt(r3, y); err != nil || !bytes.Equal(got, x) {
+				corrupted("Encrypt", err)
+			}
+			if got, err := d.Decrypt(s1, y); err != nil || !bytes.Equal(got, x) {
+				corrupted("Decrypt", err)
+			}
+		case keys.Streaming:
+			// the destination of Read is the caller's: a reader writes inside dst[:len] only (never into
+			// the spare capacity behind it or the memory around it), whatever the read sizes are
+			sa := tk.Must(streamingaead.New(h))
+			var buf bytes.Buffer
+			w, err := sa.NewEncryptingWriter(&buf, y)
+			if err != nil {
+				rt.Fatalf("%s: %v", info.Desc, err)
+			}
+			if _, err := w.Write(x); err != nil {
+				rt.Fatalf("%s: Write: %v", info.Desc, err)
+			}
+			if err := w.Close(); err != nil {
+				rt.Fatalf("%s: Close: %v", info.Desc, err)
+			}
+			r, err := sa.NewDecryptingReader(bytes.NewReader(buf.Bytes()), y)
+			if err != nil {
+				rt.Fatalf("%s: %v", info.Desc, err)
+			}
+			var got []byte
+			for i := 0; i < len(x)+4; i++ {
+				n := rapid.SampledFrom([]int{1, 7, 16, 64, 300}).Draw(rt, "read_size")
+				dst := p.in("read destination", make([]byte, n))
+				a := p.arenas[len(p.arenas)-1]
+				k, err := r.Read(dst)
+				if k < 0 || k > n {
+					rt.Fatalf("%s: Read into %d bytes returned n = %d", info.Desc, n, k)
+				}
+				// bytes inside dst[:len] are the reader's to write (io.Reader: all of p may be used as scratch)
+				copy(a.orig[guardLen:guardLen+n], a.buf[guardLen:guardLen+n])
+				p.verify("Read")
+				got = append(got, dst[:k]...)
+				if err != nil {
+					break
+				}
+			}
+			if !bytes.Equal(got, x) {
+				rt.Fatalf("%s: reading the stream in pieces into caller buffers gives %x, want %x", info.Desc, got, x)
+			}
+		case keys.Deriver:
+			// derived handles are results too: one derived earlier is not changed by a later derivation
+			d := tk.Must(keyderivation.New(h))
+			h1, err1 := d.DeriveKeyset(x)
+			_, err2 := d.DeriveKeyset(x3)
+			h3, err3 := d.DeriveKeyset(x)
+			if err1 != nil || err2 != nil || err3 != nil {
+				rt.Fatalf("%s: DeriveKeyset: %v %v %v", info.Desc, err1, err2, err3)
+			}
+			e1, _ := h1.Entry(0)
+			e3, _ := h3.Entry(0)
+			if e1 == nil || e3 == nil || !e1.Key().Equal(e3.Key()) {
+				rt.Fatalf("%s: DeriveKeyset(salt) before and after a derivation with another salt gives different keys", info.Desc)
+			}
+		}
+		p.verify("result retention calls")
 		finish(p, fmt.Sprintf("alltypes/%s/%s", c, info.Type), evid.NewH().S(info.Desc).B(x).B(y).Sum(), map[string]any{"key": info.Desc, "x_len": len(x), "y_len": len(y)})
 	})
 }
